@@ -99,8 +99,8 @@ class Recorder:
         return self.note_val(h)
 
     # ---- events
-    def env(self, what):
-        self.lines.append({"e": "Env", "what": what, "state": self.state()})
+    def env(self, what, damage=False):
+        self.lines.append({"e": "Env", "what": what, "dmg": damage, "state": self.state()})
 
     def now(self):
         return self.a.clock - BASE_TIME
@@ -108,12 +108,14 @@ class Recorder:
     def sync(self, *flags, midrun=None, rules=None, extra_args=()):
         """midrun: shell command run after the scan and before the stripes are read (--test-run)"""
         opts = {"force_full": "-F" in flags, "force_empty": "-E" in flags, "force_zero": "-Z" in flags,
-                "nocopy": "--force-nocopy" in flags}
+                "nocopy": "--force-nocopy" in flags,
+                "kill_after": "--test-kill-after-sync" in flags}
         pre_fs = self.last["fs"]
         args = list(flags) + list(extra_args)
         if midrun:
             args = ["--test-run", midrun] + args
         r = self.a.run("sync", *args, rules=rules)
+        self.last_result = r
         st = self.state()
         srcs = {d: {} for d in self.D}
         for t in r.tag("scan"):
@@ -130,7 +132,7 @@ class Recorder:
         elif ran:
             ex = "error"
         else:
-            ex = "refused"
+            ex = "stopped"
         out = {"exit": ex, "rc": r.rc, "err": int(summ.get("error_file", ["0"])[0]),
                "silent": int(summ.get("error_data", ["0"])[0]), "io": int(summ.get("error_io", ["0"])[0])}
         line = {"e": "Sync", "args": {"opts": opts, "now": self.now(), "srcs": srcs, "flags": list(flags)},
@@ -160,11 +162,12 @@ class Recorder:
 
     def _exit(self, r):
         ex = [t[2] for t in r.tag("summary") if len(t) > 2 and t[1] == "exit"]
-        return ex[-1] if ex else "none"
+        return ex[-1] if ex else ("ok" if r.rc == 0 else "none")
 
     def check(self, *flags):
         present = self.present_levels()
         r = self.a.run("check", *flags)
+        self.last_result = r
         de, pe = self._derr(r)
         out = {"exit": self._exit(r), "rc": r.rc, "derr": [list(x) for x in de], "perr": [list(x) for x in pe]}
         self.lines.append({"e": "Check", "args": {"audit": "-a" in flags, "present": present, "flags": list(flags)},
@@ -173,6 +176,7 @@ class Recorder:
 
     def fix(self, *flags, sel=None):
         r = self.a.run("fix", *flags)
+        self.last_result = r
         st = self.state()
         rec = sorted((str(self.a.conf.disk_names.index(t[2])), t[3]) for t in r.tag("status") if t[1] == "recovered")
         unr = sorted((str(self.a.conf.disk_names.index(t[2])), t[3]) for t in r.tag("status") if t[1] == "unrecoverable")
@@ -184,10 +188,12 @@ class Recorder:
         return r, out
 
     def scrub(self, plan="full", *flags):
+        present = self.present_levels()
         r = self.a.run("scrub", "-p", plan, *flags)
+        self.last_result = r
         de, pe = self._derr(r)
         out = {"exit": self._exit(r), "rc": r.rc, "derr": [list(x) for x in de], "perr": [list(x) for x in pe]}
-        self.lines.append({"e": "Scrub", "args": {"plan": plan, "now": self.now(), "flags": list(flags)},
+        self.lines.append({"e": "Scrub", "args": {"plan": plan, "now": self.now(), "present": present, "flags": list(flags)},
                            "state": self.state(), "out": out})
         return r, out
 
